@@ -11,7 +11,10 @@ Leg B: harness/text/codec_drv.cpp calls util::escape (3 overloads), urlencode (3
        b64url::encode/decode (string, pointer, stream), encoded_size/decoded_size, filters::escape /
        urlencode / base64_urlencode (also fed by ONE streamable object that writes several pieces: all 2- and
        3-piece length combinations around the filters' 128-byte buffer, char-by-char, random piece sequences,
-       booster::locale::format; judged on the concatenation) and the text / textarea widgets' rendering; every call is an event
+       booster::locale::format; judged on the concatenation); every (begin,end) entry point on sub-ranges of larger
+       buffers with adversarial neighbouring bytes and on ranges ending / starting at an inaccessible page, judged by the
+       range content alone and required to equal the std::string form on a copy of the range (RangeLocal; an access
+       outside the range next to the inaccessible page becomes a Died event); and the text / textarea widgets' rendering; every call is an event
        judged by CodecTrace.tla: property layer = the statement's predicates, mechanism layer (Strict)
        = output equals the TLA+ function (MODEL-DRIFT only).
 """
@@ -102,12 +105,40 @@ def run(ctx):
             return ctx.violation("row:%s" % hexs(e["pre"]), "results for the one-byte extensions of %s rejected" % hexs(e["pre"]), x["path"])
         if k == "Call" and first:
             return explain_call(e, x["path"])
+        if k == "Range":
+            return explain_range(e, x["path"], first)
+        if k == "Died":
+            return ctx.violation("died:%s:%s:%s" % (e["fn"], e["ctx"].split(",")[0], hexs(e["in"])[:16]),
+                                 "%s on the range %s placed at %s touched memory outside the range (signal %s)" % (e["fn"], hexs(e["in"])[:80], e["ctx"], e["sig"]), x["path"])
         if k == "Round":
             return ctx.violation("round:%s:%s" % (e["fam"], hexs(e["in"])[:16]),
                                  "decode(encode(x)) # x for %s: x=%s encoded=%s decoded=%s" % (e["fam"], hexs(e["in"])[:64], hexs(e["mid"])[:64], hexs(e["out"])[:64]), x["path"])
         if k == "Sizes":
             return ctx.violation("sizes:%d" % e["n"], "encoded_size(%d)=%d decoded_size(%d)=%d" % (e["n"], e["enc"], e["n"], e["dec"]), x["path"])
         ctx.violation("%s:%s" % (k.lower(), hexs(e.get("in", e.get("pre", [])))[:16]), "event rejected: %s" % x["event"][:200], x["path"])
+
+    def explain_range(e, path, first):
+        """a rejected Range event: either one result is unacceptable for the range content (as for Call), or a range
+        form differs from the std::string form on a copy of the range (RangeLocal); the labels below only describe
+        the event TLC rejected"""
+        base = lambda fn: fn.split("_")[0]
+        groups = e["r"]
+        for i, g in enumerate(groups):
+            for h in groups[i + 1:]:
+                if g["sink"] != "none" or h["sink"] != "none" or g["fail"] or h["fail"]:
+                    continue
+                if any(x == "b64dec_str" and y["ret"] != 1 for x, y in ((g["fns"][0], g), (h["fns"][0], h))):
+                    continue
+                if {base(f) for f in g["fns"]} & {base(f) for f in h["fns"]} and g["out"] != h["out"]:
+                    odd = h if "copy" in g.get("ctx", []) else g
+                    ref = g if odd is h else h
+                    return ctx.violation("range-local:%s:%s" % (odd["fns"][0], hexs(e["in"])[:16]),
+                                         "%s on the range %s placed at %s gave %s, the std::string form on a copy of the range gave %s: "
+                                         "the result depends on bytes outside [begin,end)" % (
+                                             "/".join(odd["fns"]), hexs(e["in"])[:80], ";".join(odd.get("ctx", []))[:120], hexs(odd["out"])[:80], hexs(ref["out"])[:80]), path)
+        if first:
+            return explain_call(e, path)
+        ctx.violation("range:%s" % hexs(e["in"])[:16], "range event rejected: %s" % json.dumps(e)[:200], path)
 
     def explain_call(e, path):
         f = os.path.join(ctx.work, "codec-one-%d-%d.ndjson" % (threading.get_ident(), len(explained)))
@@ -141,6 +172,10 @@ def run(ctx):
     npc = 3 if q else 8
     for i in range(npc):
         specs.append(("pieces-%d" % i, ["pieces", i, npc], {}))
+    # (begin,end) entry points on sub-ranges of larger buffers / next to inaccessible pages vs. the string forms on a copy
+    nrg = 1 if q else 6
+    for i in range(nrg):
+        specs.append(("ranges-%d" % i, ["ranges", i, nrg], {}))
     nrow = 4 if q else 8
     for i in range(nrow):
         specs.append(("rows-%d" % i, ["rows", 257 * i // nrow, 257 * (i + 1) // nrow, "all"], {}))
@@ -184,7 +219,7 @@ def note(ctx, f, tag):
     n = 0
     with open(f) as fh:
         for ln in fh:
-            if ln.startswith('{"e":"Call"') and len(ln) < 200000:
+            if (ln.startswith('{"e":"Call"') or ln.startswith('{"e":"Range"')) and len(ln) < 200000:
                 try:
                     e = json.loads(ln)
                 except Exception:
